@@ -31,6 +31,10 @@ type GenConfig struct {
 
 	// RootNamespace of the main package (default "Main").
 	RootNamespace string
+
+	// ArgRefPct: chance (percent) that a generic argument is a reference to a non-generic named
+	// type (record, enum, alias) instead of the default mix; 0 keeps the default distribution.
+	ArgRefPct int
 }
 
 func DefaultGen() GenConfig {
@@ -62,6 +66,8 @@ type gen struct {
 	unionID *int
 	curNs   string
 	env     *Env
+	// fixedRecs: records generated with a fixed-size layout (see recordDef)
+	fixedRecs []scopeDef
 }
 
 func (g *gen) intn(label string, n int) int {
@@ -132,6 +138,11 @@ func (g *gen) argType(depth int) *Type {
 		p := g.params[g.intn("argParamIdx", len(g.params))]
 		g.used[p] = true
 		return Param(p)
+	}
+	if g.cfg.ArgRefPct > 0 && g.chance("argRef", g.cfg.ArgRefPct) {
+		if r := g.leafRef(); g.env.TypeOK(r) {
+			return r
+		}
 	}
 	if depth >= g.cfg.MaxDepth || g.chance("argPrim", 60) {
 		return g.prim()
@@ -583,8 +594,21 @@ func (g *gen) recordDef(name string) *Def {
 	g.used = map[string]bool{}
 	n := 1 + g.intn("recFields", 5)
 	names := g.memberNames(n+len(d.TypeParams), fieldWords)
+	// One record in eight has a fixed-size layout (only fixed-width scalars, fixed vectors/arrays
+	// of them and other such records): these are the records the C++ runtime may copy as raw
+	// memory, where alignment padding and field order matter.
+	fixedLayout := len(d.TypeParams) == 0 && g.chance("recFixedLayout", 12)
 	for i := 0; i < n; i++ {
-		d.Fields = append(d.Fields, Field{Name: names[i], Type: g.top(1), Comment: g.comment("fieldComment")})
+		ft := (*Type)(nil)
+		if fixedLayout {
+			ft = g.fixedLayoutType()
+		} else {
+			ft = g.top(1)
+		}
+		d.Fields = append(d.Fields, Field{Name: names[i], Type: ft, Comment: g.comment("fieldComment")})
+	}
+	if fixedLayout {
+		g.fixedRecs = append(g.fixedRecs, scopeDef{g.curNs, d})
 	}
 	// every type parameter must be used
 	usedP := paramsUsed(d)
@@ -618,6 +642,29 @@ func (g *gen) recordDef(name string) *Def {
 		}
 	}
 	return d
+}
+
+var fixedLayoutPrims = []string{"uint8", "int8", "bool", "float32", "float64", "complexfloat32", "complexfloat64", "float64", "uint8"}
+
+// fixedLayoutType: a type whose C++ representation has a fixed size and no indirection.
+func (g *gen) fixedLayoutType() *Type {
+	base := Prim(fixedLayoutPrims[g.intn("flPrim", len(fixedLayoutPrims))])
+	if len(g.fixedRecs) > 0 && g.chance("flNested", 15) {
+		sd := g.fixedRecs[g.intn("flNestedIdx", len(g.fixedRecs))]
+		base = Ref(sd.ns, sd.def.Name)
+	}
+	switch k := g.intn("flShape", 10); {
+	case k < 6:
+		return base
+	case k < 8:
+		return FixedVector(base, uint64(1+g.intn("flVecLen", 3)))
+	default:
+		if base.Kind != KPrim { // arrays of records are behind a known-finding switch; keep to scalars here
+			return base
+		}
+		l1, l2 := uint64(1+g.intn("flDim1", 3)), uint64(1+g.intn("flDim2", 2))
+		return &Type{Kind: KArray, Elem: base, HasDims: true, Dims: []Dim{{Len: &l1}, {Len: &l2}}}
+	}
 }
 
 func capitalize(s string) string {
